@@ -1,36 +1,21 @@
-"""Per-property configuration of bin/check."""
+"""Per-property configuration of bin/check: one JSON file per property in /verif/props/."""
+import glob
+import json
+import os
+
+ROOT = os.path.dirname(os.path.dirname(os.path.abspath(__file__)))
 
 COMMON_TRUSTED = [
     "Lean 4.33.0 kernel (thorough tier: re-checked with leanchecker)",
     "statement of the theorems in lean/VrlProofs/Props/<ID>.lean and of the Spec predicates they use",
     "correspondence check: harness generators, canonical wire format (harness/src/wire.rs, lean/VrlModel/Wire.lean), "
     "Lean driver parser (uses `partial def`; not part of any theorem), bin/check diff; agreement on N cases is sampling",
-    "Rust compiler/std (BTreeMap, Vec, isize arithmetic) modelled, not verified",
+    "Rust compiler/std (BTreeMap, Vec, integer arithmetic) modelled, not verified",
 ]
 
-PROPS = {
-    "C18": {
-        "level": "proof",
-        "lean_modules": ["VrlProofs.Props.C18", "VrlProofs.Witness.C18"],
-        "ops": ["val.get", "val.insert", "val.remove", "o.c18"],
-        "n": {"quick": 4000, "thorough": 300000},
-        "technique": "Lean 4 theorems by induction on the path over a model of crud::{get,insert,remove}; "
-                     "model tied to the code by differential correspondence",
-        "claim": "Proof (Lean 4 kernel) for all values, paths, inserted values and prune flags of: read-your-write, "
-                 "remove-returns-get, absent/non-container paths change nothing, sorted-key invariant, panic only at "
-                 "isize::MIN. The frame law is proved under the decidable frame condition `frameOK` (no coercion, padding "
-                 "or shifting); outside it the law is false of the code: three witness theorems + known findings.",
-        "note": "The theorems are about lean/VrlModel/Value.lean; the tie to src/value/value/crud is the val.* "
-                "correspondence (sampling). Rust std containers are modelled. Opposite-sign index pairs at the "
-                "divergence point are excluded from the frame theorem (aliasing depends on the array length).",
-        "trusted": ["modelled: src/value/value/crud/{get,insert,remove,mod}.rs and Value::{get,insert,remove}; "
-                    "allocation failure for huge indices (memory exhaustion) is outside the model"],
-        "assumptions": ["indices are isize values; a path segment is Field or Index (OwnedSegment)"],
-        "nontrivial_rule": "distinct case lines whose implementation reply is neither `none` nor `none<tab>none` "
-                           "(i.e. the path addressed something or the operation changed the value)",
-        "explanation": "theorems over all values/paths; the frame law is proved under frameOK and its three "
-                       "counterexample classes are witnessed in Lean and re-observed on the implementation",
-    },
-}
+PROPS = {}
+for f in sorted(glob.glob(os.path.join(ROOT, "props", "C*.json"))):
+    PROPS[os.path.basename(f)[:-5]] = json.load(open(f))
 
+# reasons for properties not (yet) claimed; default text in bin/mkmanifest
 NOT_YET = {}
